@@ -31,7 +31,7 @@ def documentedStatus (l : LayerCfg) : Nat :=
   | .cbreaker => match l.fallback with
     | .dflt => 503
     | .response code => code
-    | .redirect => 302
+    | .redirect _ => 302
   | .roundrobin => 500
   | .rebalancer => 500
   | .buffer => 413
